@@ -178,6 +178,10 @@ class SimProcess:
         hook = sim.knobs.get('_spawn_hook')
         if hook is not None:
             hook(sim, me, self)         # may raise OSError (spawn-fails) or sleep (spawn-delay)
+        sd = sim.knobs.get('spawn_delay')
+        if sd and sim.frng.random() < 0.5:
+            sim.fault('spawn-delay')
+            sim.sleep(sd * sim.frng.random())
         child = sim.new_proc(f'{me.name}.{me.nspawn}', me.proc)
         child.name_hint = self._name
         sim.spawning = child
